@@ -106,6 +106,7 @@ const (
 	ScriptW4    = 3 // testdata.Wasm4: OBI input (ids, calldata) -> one raw request per id (eid = index)
 	ScriptOK1   = 4 // asks (eid 1, ds 1); returns "test" => SUCCESS
 	ScriptOKNil = 5 // asks (eid 1, ds 1); returns ZERO bytes (set_return_data with length 0) => SUCCESS with an empty result
+	ScriptDesc  = 6 // asks (eid 3, ds 1), (eid 1, ds 2), (eid 2, ds 3) IN THAT ORDER (external ids not ascending); returns "test"
 )
 
 const watFail1 = `
@@ -170,6 +171,42 @@ const watOKNil = `
 	  i32.const 1024
 	  i64.extend_i32_u
 	  i64.const 0
+	  call $set_return_data)
+	(table $T0 1 1 funcref)
+	(memory $memory (export "memory") 17)
+	(data (i32.const 1024) "test"))
+`
+
+const watDesc = `
+(module
+	(type $t0 (func))
+	(type $t1 (func (param i64 i64 i64 i64)))
+	(type $t2 (func (param i64 i64)))
+	(import "env" "ask_external_data" (func $ask_external_data (type $t1)))
+	(import "env" "set_return_data" (func $set_return_data (type $t2)))
+	(func $prepare (export "prepare") (type $t0)
+	  i64.const 3
+	  i64.const 1
+	  i32.const 1024
+	  i64.extend_i32_u
+	  i64.const 4
+	  call $ask_external_data
+	  i64.const 1
+	  i64.const 2
+	  i32.const 1024
+	  i64.extend_i32_u
+	  i64.const 4
+	  call $ask_external_data
+	  i64.const 2
+	  i64.const 3
+	  i32.const 1024
+	  i64.extend_i32_u
+	  i64.const 4
+	  call $ask_external_data)
+	(func $execute (export "execute") (type $t0)
+	  i32.const 1024
+	  i64.extend_i32_u
+	  i64.const 4
 	  call $set_return_data)
 	(table $T0 1 1 funcref)
 	(memory $memory (export "memory") 17)
@@ -411,7 +448,7 @@ func (w *World) genesis() band.GenesisState {
 		og.DataSources = append(og.DataSources, oracletypes.NewDataSource(
 			w.Owner.Addr, fmt.Sprintf("ds%d", i+1), "", hash, ds.Fee, w.Treasuries[ds.Treasury].Addr))
 	}
-	wasms := [][]byte{testdata.Wasm1, Wat2Wasm(watFail1), testdata.Wasm4, Wat2Wasm(watOK1), Wat2Wasm(watOKNil)}
+	wasms := [][]byte{testdata.Wasm1, Wat2Wasm(watFail1), testdata.Wasm4, Wat2Wasm(watOK1), Wat2Wasm(watOKNil), Wat2Wasm(watDesc)}
 	for i, code := range wasms {
 		hash := fc.AddFile(testdata.Compile(code))
 		og.OracleScripts = append(og.OracleScripts, oracletypes.NewOracleScript(
